@@ -143,6 +143,11 @@ func ReadFile(r io.Reader) (File, []string, error) {
 		nextRecordOpCode = 0
 		nextRecordBitFlags = false
 	}
+	// the token reader stops at the first byte sequence it cannot tokenize and
+	// at reader failures; neither may pass for a clean end of input
+	if err := tr.Err(); err != nil {
+		return f, warnings, err
+	}
 	return f, warnings, nil
 }
 
